@@ -2,7 +2,7 @@
 import ast
 
 from vstat.loader import AnalysisError
-from vstat.terms import subst, IT, builder, show, SELF, NONE, G, alts, walk, mentions, phi, strip_none, FULL
+from vstat.terms import subst, IT, builder, show, SELF, NONE, G, alts, walk, mentions, phi, strip_none, FULL, CMP
 from vstat.guards import path_conditions
 from vstat.cfg import cfg_of
 from vstat.sigs import bind
@@ -245,7 +245,11 @@ def _integral_func(prog, rep, outer_q, tag):
         x = t[2][0]
         if x[0] == "call" and x[1][0] == "attr" and x[1][2] == "reshape" and x[2] in ((("tuple", (("const", 1), nd)),), (("const", 1), nd)):
             inner = x[1][1]
-            if inner[0] == "sub" and inner[1] == ("call", G("numpy.array"), (P("args"),), ()):
+            if tag == "cdf" and inner == ("call", G("numpy.array"), (P("args"),), ()):
+                # the joint cdf integrates in the model's own order: the arguments arrive as pdf expects them, no permutation to undo
+                ao = ("call", G("list"), (("call", G("range"), (nd,), ()),), ())
+                ok = True
+            elif inner[0] == "sub" and inner[1] == ("call", G("numpy.array"), (P("args"),), ()):
                 idx = inner[2]
                 if idx[0] == "call" and idx[1] == G("numpy.argsort") and len(idx[2]) == 1 and not idx[3]:
                     ao = idx[2][0]
@@ -353,7 +357,17 @@ def argorder(prog, rep):
         # the index may be normalised first: range(n_dim)[dim] is dim for 0 <= dim < n_dim and n_dim + dim for a negative one
         NORM = ("sub", ("call", G("range"), (nd,), ()), P("dim"))
         DIM = NORM if ao is not None and mentions(ao, NORM) else P("dim")
-        okao = ao is not None and ao[0] == "bin" and ao[1] == "+" and ao[3] == ("list", (DIM,)) and ao[2] in (rng, rev)
+        def others_comp(t):
+            """[j for j in range(n_dim) (any order) if j != dim]: the other variables, without a deletion"""
+            if not (t[0] == "comp" and t[1] == "list" and len(t[5]) == 1):
+                return False
+            it = t[4]
+            its = (rng, rev, ("call", G("range"), (nd,), ()), ("call", G("reversed"), (("call", G("range"), (nd,), ()),), ()), ("call", G("reversed"), (rng,), ()))
+            var = t[2]
+            c = t[5][0]
+            return it in its and var[0] == "sub" and var[2][0] == "idx" and var[2][1] == t[3] \
+                and c in (("not", CMP("==", var, DIM)), ("not", CMP("==", DIM, var)))
+        okao = ao is not None and ao[0] == "bin" and ao[1] == "+" and ao[3] == ("list", (DIM,)) and (ao[2] in (rng, rev) or others_comp(ao[2]))
         # a raw negative dim sorts BEFORE every other dimension in np.argsort(order + [dim]): the evaluation point is then fed to variable 0
         pcs_ = path_conditions(prog, fn, b)
         guarded_ = any(isinstance(st_, ast.Raise) and any(l_ in (("cmp", "<", P("dim"), ("const", 0)),) for l_ in pcs_.of(st_)) for st_ in cfg_of(fn).all_stmts())
@@ -364,7 +378,9 @@ def argorder(prog, rep):
           rep.check(okao, "C06.argorder", f"{q}:order", fn.where(), "arg_order = <other dims> + [dim]",
                   f"the marginalised dimension must come last in arg_order (it is the argument nquad appends / integrates last); found {show(ao)[:140] if ao else None}")
         d = _has_del(fn, "integral_order", DIM, b)
-        rep.check(d is not None, "C06.argorder", f"{q}:others", fn.where(d) if d else fn.where(), "dim removed from the list of integrated dimensions",
+        if d is None and okao and others_comp(ao[2]):
+            d = fn.node     # built without dim in the first place
+        rep.check(d is not None, "C06.argorder", f"{q}:others", fn.where(d) if d is not None and d is not fn.node else fn.where(), "dim removed from the list of integrated dimensions",
                   "the list of integrated dimensions must have dim removed (del integral_order[dim]) so that arg_order is a permutation of range(n_dim)")
         okc = False
         why = "no nquad call found"
@@ -383,10 +399,11 @@ def argorder(prog, rep):
                                      "them - marginal_pdf / marginal_cdf return 0 (1e-9 ... 1e-47) without a warning while the joint cdf is right; integrate each variable "
                                      "between its own extreme quantiles")
                             return True    # the positional obligations below are those of the old form
-                        if not (r0[0] == "comp" and r0[1] == "list" and r0[4] == ("call", G("range"), (("bin", "-", nd, ("const", 1)),), ()) and not r0[5]):
+                        counts = [("bin", "-", nd, ("const", 1))] + ([("call", G("len"), (others,), ())] if others is not None else [])
+                        if not (r0[0] == "comp" and r0[1] == "list" and r0[4][0] == "call" and r0[4][1] == G("range") and len(r0[4][2]) == 1 and r0[4][2][0] in counts and not r0[5]):
                             return False
                         el = r0[2]
-                        pos = ("idx", r0[3], "range", (("bin", "-", nd, ("const", 1)),))
+                        pos = ("idx", r0[3], "range", (r0[4][2][0],))
                         if not (el[0] == "call" and el[1][0] == "attr" and el[1][1] == SELF and len(el[2]) == 3 and not el[3]):
                             return False
                         ord_t, pos_t, dim_t = el[2]
@@ -453,28 +470,48 @@ def _range_factory(prog, rep, fac):
         raise AnalysisError(f"{q}: expected (integral_order, position, dim)")
     ORD, POS, DIMP = (P(x) for x in pp)
     bf = builder(prog, fac, inline=False)
+    pf = path_conditions(prog, fac, bf)
     rets = [s_ for s_ in cfg_of(fac).all_stmts() if isinstance(s_, ast.Return)]
-    rt = bf.term(rets[-1].value, rets[-1]) if rets else NONE
-    inner = prog.functions.get(rt[1]) if rt[0] == "func" else None
-    if inner is None or inner.node.args.vararg is None:
-        rep.fail("C06.ranges", f"{q}:callable", fac.where(), f"the range must be a *args callable of this package (nquad hands it the outer variables); found {show(rt)[:80]}")
-        return
-    ARGS = P(inner.node.args.vararg.arg)
-    bi = builder(prog, inner, inline=False, guarded=True)
-    irets = [s_ for s_ in cfg_of(inner).all_stmts() if isinstance(s_, ast.Return)]
-    t = bi.term(irets[-1].value, irets[-1]) if len(irets) == 1 else NONE
     IDX = ("sub", ORD, POS)
     DIST = ("sub", ("attr", SELF, "distributions"), IDX)
     COND = ("sub", ("attr", SELF, "conditional_on"), IDX)
     from vstat.terms import top_alts as _ta
     from vstat.terms import degrade as _dg
-    ok_q = ok_p = ok_g = t[0] == "tuple" and len(t[1]) == 2
-    why_q = why_g = f"found {show(t)[:200]}"
+    # one closure, or one per case (`if cond_idx is None: return unconditional_range`): every returned closure with the literals it is returned under
+    pairs = []          # [(literals, lo term, hi term)]
+    ARGS = None
+    shape_ok = bool(rets)
+    for r_ in rets:
+        rt = bf.term(r_.value, r_)
+        for fl, alt in _ta(rt):
+            inner = prog.functions.get(alt[1]) if alt[0] == "func" else None
+            if inner is None or inner.node.args.vararg is None:
+                rep.fail("C06.ranges", f"{q}:callable", fac.where(), f"the range must be a *args callable of this package (nquad hands it the outer variables); found {show(alt)[:80]}")
+                return
+            a_ = P(inner.node.args.vararg.arg)
+            if ARGS is not None and a_ != ARGS:
+                # closures may name their *args differently: rename to the first one
+                pass
+            ARGS = ARGS or a_
+            bi = builder(prog, inner, inline=False, guarded=True)
+            irets = [s_ for s_ in cfg_of(inner).all_stmts() if isinstance(s_, ast.Return)]
+            t = bi.term(irets[-1].value, irets[-1]) if len(irets) == 1 else NONE
+            if a_ != ARGS:
+                t = subst(t, {a_: ARGS})
+            if not (t[0] == "tuple" and len(t[1]) == 2):
+                shape_ok = False
+                continue
+            los, his = sorted(_ta(t[1][0]), key=repr), sorted(_ta(t[1][1]), key=repr)
+            if len(los) != len(his):
+                shape_ok = False
+                continue
+            for (ll, lo), (hl, hi) in zip(los, his):
+                pairs.append((tuple(pf.of(r_)) + tuple(fl) + tuple(ll), lo, hi))
+    ok_q = ok_p = ok_g = shape_ok and bool(pairs)
+    why_q = why_g = f"found {[show(p_[1])[:120] for p_ in pairs][:2]}"
     if ok_q:
-        lo_alts, hi_alts = _ta(t[1][0]), _ta(t[1][1])
-        ok_q = len(lo_alts) == len(hi_alts) and len(lo_alts) >= 1
         seen_plain = seen_given = False
-        for (ll, lo), (hl, hi) in zip(sorted(lo_alts, key=repr), sorted(hi_alts, key=repr)):
+        for ll, lo, hi in pairs:
             if not (lo[0] == "sub" and hi[0] == "sub" and lo[2] == ("const", 0) and hi[2] == ("const", 1) and lo[1] == hi[1]):
                 ok_q = False
                 continue
